@@ -52,64 +52,6 @@ def beNat : Bytes → Nat
   | [] => 0
   | b :: rest => b.toNat * 256 ^ rest.length + beNat rest
 
-/-- `readEncodedLength`: (length, encoded) -/
-def encLen : Rd (Nat × Bool) := fun xs =>
-  match u8 xs with
-  | .ok u rest =>
-    let t := u.toNat / 64
-    if t = 0 then .ok (u.toNat % 64, false) rest
-    else if t = 1 then
-      match u8 rest with
-      | .ok u2 rest2 => .ok ((u.toNat % 64) * 256 + u2.toNat, false) rest2
-      | .err => .err
-      | .unsup => .unsup
-    else if t = 3 then .ok (u.toNat % 64, true) rest
-    else if u = 0x80 then
-      match takeN 4 rest with
-      | .ok bs rest2 => .ok (beNat bs, false) rest2
-      | .err => .err
-      | .unsup => .unsup
-    else if u = 0x81 then
-      match takeN 8 rest with
-      | .ok bs rest2 => .ok (beNat bs, false) rest2
-      | .err => .err
-      | .unsup => .unsup
-    else .err                                          -- "unknown encoding type"
-  | .err => .err
-  | .unsup => .unsup
-
-/-- `ReadLength` / `ReadLength64`: an encoded (string) marker is an error. The
-    value is returned in full; callers that use `ReadLength` as a loop count see
-    it truncated to 32 bits (`len32`). -/
-def len : Rd Nat := fun xs =>
-  match encLen xs with
-  | .ok (n, enc) rest => if enc then .err else .ok n rest
-  | .err => .err
-  | .unsup => .unsup
-
-def len32 : Rd Nat := fun xs =>
-  match len xs with
-  | .ok n rest => .ok (n % 4294967296) rest
-  | .err => .err
-  | .unsup => .unsup
-
-/-- walk over one string (`ReadString`): raw bytes, int8/16/32; LZF is outside the model -/
-def str : Rd Unit := fun xs =>
-  match encLen xs with
-  | .ok (n, enc) rest =>
-    if !enc then
-      match takeN n rest with
-      | .ok _ r => .ok () r
-      | .err => .err
-      | .unsup => .unsup
-    else if n = 0 then (match takeN 1 rest with | .ok _ r => .ok () r | .err => .err | .unsup => .unsup)
-    else if n = 1 then (match takeN 2 rest with | .ok _ r => .ok () r | .err => .err | .unsup => .unsup)
-    else if n = 2 then (match takeN 4 rest with | .ok _ r => .ok () r | .err => .err | .unsup => .unsup)
-    else if n = 3 then .unsup                             -- rdbEncLZF
-    else .err                                             -- "invalid encoded-string"
-  | .err => .err
-  | .unsup => .unsup
-
 /-- run `r` then `k` -/
 def andThen {α β} (r : Rd α) (k : α → Rd β) : Rd β := fun xs =>
   match r xs with
@@ -117,24 +59,56 @@ def andThen {α β} (r : Rd α) (k : α → Rd β) : Rd β := fun xs =>
   | .err => .err
   | .unsup => .unsup
 
-def skip {α} (r : Rd α) : Rd Unit := andThen r (fun _ rest => .ok () rest)
+def ret {α} (a : α) : Rd α := fun xs => .ok a xs
+def fail {α} : Rd α := fun _ => .err
+def outside {α} : Rd α := fun _ => .unsup
+
+/-- `readEncodedLength`: (length, encoded) -/
+def encLen : Rd (Nat × Bool) :=
+  andThen u8 (fun u =>
+    let t := u.toNat / 64
+    if t = 0 then ret (u.toNat % 64, false)
+    else if t = 1 then andThen u8 (fun u2 => ret ((u.toNat % 64) * 256 + u2.toNat, false))
+    else if t = 3 then ret (u.toNat % 64, true)
+    else if u = 0x80 then andThen (takeN 4) (fun bs => ret (beNat bs, false))
+    else if u = 0x81 then andThen (takeN 8) (fun bs => ret (beNat bs, false))
+    else fail)                                             -- "unknown encoding type"
+
+/-- `ReadLength` / `ReadLength64`: an encoded (string) marker is an error. The
+    value is returned in full; callers that use `ReadLength` as a loop count see
+    it truncated to 32 bits (`len32`). -/
+def len : Rd Nat :=
+  andThen encLen (fun p => if p.2 then fail else ret p.1)
+
+def len32 : Rd Nat :=
+  andThen len (fun n => ret (n % 4294967296))
+
+def skipBytes (n : Nat) : Rd Unit := andThen (takeN n) (fun _ => ret ())
+
+/-- walk over one string (`ReadString`): raw bytes, int8/16/32; LZF is outside the model -/
+def str : Rd Unit :=
+  andThen encLen (fun p =>
+    if !p.2 then skipBytes p.1
+    else if p.1 = 0 then skipBytes 1
+    else if p.1 = 1 then skipBytes 2
+    else if p.1 = 2 then skipBytes 4
+    else if p.1 = 3 then outside                           -- rdbEncLZF
+    else fail)                                             -- "invalid encoded-string"
 
 /-- `for i := 0; i < n; i++ { r }` -/
 def repeatN : Nat → Rd Unit → Rd Unit
-  | 0, _ => fun xs => .ok () xs
+  | 0, _ => ret ()
   | n+1, r => andThen r (fun _ => repeatN n r)
-
-def skipBytes (n : Nat) : Rd Unit := skip (takeN n)
 
 /-- how `<Type>Parser.ReadBuffer` walks over the value of RDB type `t` (after the key) -/
 def valueBody (t : Nat) : Rd Unit :=
   if t = 0 ∨ t = 9 ∨ t = 10 ∨ t = 11 ∨ t = 12 ∨ t = 13 ∨ t = 16 ∨ t = 17 ∨ t = 20 then str
   else if t = 1 ∨ t = 2 ∨ t = 14 then andThen len32 (fun n => repeatN n str)
-  else if t = 18 then andThen len32 (fun n => repeatN n (andThen (skip len) (fun _ => str)))
+  else if t = 18 then andThen len32 (fun n => repeatN n (andThen len (fun _ => str)))
   else if t = 4 then andThen len32 (fun n => repeatN n (andThen str (fun _ => str)))
   else if t = 5 then andThen len32 (fun n => repeatN n (andThen str (fun _ => skipBytes 8)))
-  else if t = 6 then fun _ => .err                          -- "does not support module type 1"
-  else fun _ => .unsup                                      -- 3, 7, 15, 19, 21, 26
+  else if t = 6 then fail                                   -- "does not support module type 1"
+  else outside                                              -- 3, 7, 15, 19, 21, 26
 
 def knownType (t : Nat) : Bool :=
   t ≤ 7 || (9 ≤ t && t ≤ 21) || t = 26
@@ -142,25 +116,23 @@ def knownType (t : Nat) : Bool :=
 inductive Item | entry | other | eofOp
   deriving DecidableEq, Repr
 
-/-- one iteration of the `Loader.Next` opcode switch -/
-def item : Rd Item := fun xs =>
-  match u8 xs with
-  | .ok op rest =>
-    let t := op.toNat
-    if t = 0xFF then .ok Item.eofOp rest
-    else if t = 0xFE ∨ t = 0xF8 then andThen len (fun _ r => .ok Item.other r) rest                 -- SELECTDB, IDLE
-    else if t = 0xFB then andThen len (fun _ => andThen len (fun _ r => .ok Item.other r)) rest       -- RESIZEDB
-    else if t = 0xFC then andThen (takeN 8) (fun _ r => .ok Item.other r) rest                        -- EXPIRETIME_MS
-    else if t = 0xFD then andThen (takeN 4) (fun _ r => .ok Item.other r) rest                        -- EXPIRETIME
-    else if t = 0xF9 then andThen (takeN 1) (fun _ r => .ok Item.other r) rest                        -- FREQ
-    else if t = 0xF4 then andThen len (fun _ => andThen len (fun _ => andThen len (fun _ r => .ok Item.other r))) rest  -- SLOTINFO
-    else if t = 0xFA then andThen str (fun _ => andThen str (fun _ r => .ok Item.entry r)) rest      -- AUX key, value
-    else if t = 0xF5 then andThen str (fun _ r => .ok Item.entry r) rest                             -- FUNCTION2
-    else if t = 0xF7 then .unsup                                                                   -- MODULE_AUX
-    else if knownType t then andThen str (fun _ => andThen (valueBody t) (fun _ r => .ok Item.entry r)) rest
-    else .err                                                                                      -- "unknown type"
-  | .err => .err
-  | .unsup => .unsup
+/-- the `Loader.Next` opcode switch for opcode / type byte `t` -/
+def itemOf (t : Nat) : Rd Item :=
+  if t = 0xFF then ret Item.eofOp
+  else if t = 0xFE ∨ t = 0xF8 then andThen len (fun _ => ret Item.other)                         -- SELECTDB, IDLE
+  else if t = 0xFB then andThen len (fun _ => andThen len (fun _ => ret Item.other))              -- RESIZEDB
+  else if t = 0xFC then andThen (takeN 8) (fun _ => ret Item.other)                               -- EXPIRETIME_MS
+  else if t = 0xFD then andThen (takeN 4) (fun _ => ret Item.other)                               -- EXPIRETIME
+  else if t = 0xF9 then andThen (takeN 1) (fun _ => ret Item.other)                               -- FREQ
+  else if t = 0xF4 then andThen len (fun _ => andThen len (fun _ => andThen len (fun _ => ret Item.other)))  -- SLOTINFO
+  else if t = 0xFA then andThen str (fun _ => andThen str (fun _ => ret Item.entry))              -- AUX key, value
+  else if t = 0xF5 then andThen str (fun _ => ret Item.entry)                                     -- FUNCTION2
+  else if t = 0xF7 then outside                                                                     -- MODULE_AUX
+  else if knownType t then andThen str (fun _ => andThen (valueBody t) (fun _ => ret Item.entry))
+  else fail                                                                                         -- "unknown type"
+
+/-- one iteration of `Loader.Next`: opcode byte, then its operands -/
+def item : Rd Item := andThen u8 (fun op => itemOf op.toNat)
 
 inductive Outcome
   | done (entries : Nat)        -- `Done` emitted after `entries` entries
@@ -174,9 +146,9 @@ inductive Outcome
 def footer (all rest : Bytes) (cnt : Nat) : Outcome :=
   match takeN 8 rest with
   | .ok crcBytes rest' =>
-    let crc2 := Rdb.ofLE crcBytes
-    let crc1 := (Rdb.crc64Tab (all.take (all.length - rest.length))).toNat
-    if crc2 ≠ 0 ∧ crc1 ≠ crc2 then .err cnt               -- "checksum validation error"
+    -- crc2 = the footer, crc1 = CRC64 of every byte read so far (header … EOF opcode)
+    if Rdb.ofLE crcBytes ≠ 0 ∧ (Rdb.crc64Tab (all.take (all.length - rest.length))).toNat ≠ Rdb.ofLE crcBytes
+    then .err cnt                                          -- "checksum validation error" (0 = checksum disabled)
     else if rest' ≠ [] then .err cnt                       -- D19 repair: bytes after the footer
     else .done cnt
   | _ => .err cnt
@@ -201,14 +173,12 @@ def versionOf (v : Bytes) : Option Int :=
   | ds => (decToNat? ds).map Int.ofNat
 
 /-- `Loader.Header` with `RdbVersion = maxVer` -/
-def header (maxVer : Nat) : Rd Unit := fun xs =>
-  match takeN 9 xs with
-  | .ok h rest =>
-    if h.take 5 ≠ sREDIS then .err
+def header (maxVer : Nat) : Rd Unit :=
+  andThen (takeN 9) (fun h =>
+    if h.take 5 ≠ sREDIS then fail
     else match versionOf (h.drop 5) with
-      | some v => if v ≤ 0 ∨ v > maxVer then .err else .ok () rest
-      | none => .err
-  | _ => .err
+      | some v => if v ≤ 0 ∨ v > maxVer then fail else ret ()
+      | none => fail)
 
 /-- `ParseRdb` -/
 def parse (maxVer : Nat) (f : Bytes) : Outcome :=
